@@ -31,6 +31,12 @@ NCPU = os.cpu_count() or 8
 
 GOENV = dict(os.environ, GOFLAGS="-mod=mod", GOPROXY="off", GOSUMDB="off", GOTOOLCHAIN="local",
              CGO_ENABLED="0")
+# development aid (tools/covmap.py): VERIF_COVER=<dir> builds the driver with statement-coverage counters for the
+# library under test and collects them there -- which blocks of /repo do the recorded calls reach at all?
+COVER = os.environ.get("VERIF_COVER")
+if COVER:
+    os.makedirs(COVER, exist_ok=True)
+    GOENV["GOCOVERDIR"] = COVER
 
 sys.path.insert(0, os.path.dirname(os.path.abspath(__file__)))
 from props import PROPS  # noqa: E402
@@ -57,6 +63,8 @@ def build_driver(scratch, race=False):
     if os.path.exists(os.path.join(REPO, "go.sum")):
         shutil.copy(os.path.join(REPO, "go.sum"), os.path.join(src, "go.sum"))
     cmd = ["go", "build", "-tags", "verif", "-o", out]
+    if COVER:
+        cmd[2:2] = ["-cover", "-coverpkg=github.com/woodsbury/decimal128,verifdriver"]
     env = dict(GOENV)
     if race:
         cmd.insert(2, "-race")
